@@ -75,3 +75,114 @@ def reexecute_event(t, ev, uni):
         t.raw(ev_dec_table(uni, ev["grp"], ev["d"]))
     else:
         raise MachineryError("cannot re-execute event " + op)
+
+
+# --------------------------------------------------------------------------
+# C13: the element API
+# --------------------------------------------------------------------------
+def make_elem(G, k, how):
+    """the element k.Base obtained through different API paths"""
+    q = G.order()
+    k %= q
+    if how == "mul":
+        return G.Base.scalarmult(k)
+    if how == "dec":                      # decoded from bytes (fresh object)
+        b = G.Base.scalarmult(k).to_bytes()
+        try:
+            return G.bytes_to_element(b)
+        except Exception:
+            return G.Zero if k == 0 else G.Base.scalarmult(k)
+    if how == "sum":                      # result of an addition
+        return G.Base.scalarmult(k - 1).add(G.Base) if k != 0 else G.Base.scalarmult(q - 1).add(G.Base)
+    if how == "addzero":
+        return G.Base.scalarmult(k).add(G.Zero)
+    if how == "zeroadd":
+        return G.Zero.add(G.Base.scalarmult(k))
+    if how == "bigmul":                   # scalar >= q
+        return G.Base.scalarmult(k + 2 * q)
+    if how == "negmul":                   # negative scalar
+        return G.Base.scalarmult(k - q)
+    raise ValueError(how)
+
+
+def result_rec(e):
+    r = {"enc": "", "cls": type(e).__name__, "negok": 0, "neg": ""}
+    try:
+        r["enc"] = hx(e.to_bytes())
+    except Exception as ex:
+        r["cls"] += "!to_bytes:" + type(ex).__name__
+    try:
+        r["neg"] = hx(e.scalarmult(-1).to_bytes())
+        r["negok"] = 1
+    except Exception as ex:
+        r["negerr"] = type(ex).__name__
+    return r
+
+
+def guarded(f):
+    try:
+        return result_rec(f())
+    except Exception as ex:
+        return {"enc": "", "cls": "!" + type(ex).__name__, "negok": 0, "neg": ""}
+
+
+def ev_add_row(uni, gname, a, how, how2):
+    G = uni.group(gname)
+    q = G.order()
+    ea = make_elem(G, a, how)
+    return {"op": "g_add_row", "grp": gname, "a": a, "how": how + "," + how2,
+            "outs": [guarded(lambda: ea.add(make_elem(G, j, how2))) for j in range(q)], "w": max(1, q // 4)}
+
+
+def ev_mul_row(uni, gname, a, how, lo, hi):
+    G = uni.group(gname)
+    ea = make_elem(G, a, how)
+    return {"op": "g_mul_row", "grp": gname, "a": a, "how": how, "lo": lo, "hi": hi,
+            "outs": [guarded(lambda: ea.scalarmult(n)) for n in range(lo, hi + 1)], "w": max(1, (hi - lo) // 4)}
+
+
+def ev_eq_row(uni, gname, a, how, how2):
+    G = uni.group(gname)
+    q = G.order()
+    ea = make_elem(G, a, how)
+    eq, ne = [], []
+    for j in range(q):
+        ej = make_elem(G, j, how2)
+        eq.append(1 if ea == ej else 0)
+        ne.append(1 if ea != ej else 0)
+    return {"op": "g_eq_row", "grp": gname, "a": a, "how": how + "," + how2, "eq": eq, "ne": ne}
+
+
+def ev_neg_row(uni, gname, a, how):
+    """negate / subtract, where the element type offers them"""
+    G = uni.group(gname)
+    q = G.order()
+    ea = make_elem(G, a, how)
+    if not hasattr(ea, "negate"):
+        return None
+    return {"op": "g_neg_row", "grp": gname, "a": a, "how": how,
+            "negs": [guarded(lambda: make_elem(G, j, how).negate()) for j in range(q)],
+            "subs": [guarded(lambda: ea.subtract(make_elem(G, j, how))) for j in range(q)], "w": max(1, q // 2)}
+
+
+def sc(n):
+    return {"neg": 1 if n < 0 else 0, "mag": numhex(abs(n))}
+
+
+def ev_op(uni, gname, fn, ka, kb=None, n=None, how="mul"):
+    G = uni.group(gname)
+    ea = make_elem(G, ka, how)
+    ev = {"op": "g_op", "grp": gname, "fn": fn, "ka": numhex(ka % G.order()), "how": how,
+          "kb": numhex(kb % G.order()) if kb is not None else "", "n": sc(n if n is not None else 0)}
+    if fn == "add":
+        ev["out"] = guarded(lambda: ea.add(make_elem(G, kb, how)))
+    elif fn == "sub":
+        ev["out"] = guarded(lambda: ea.subtract(make_elem(G, kb, how)))
+    elif fn == "neg":
+        ev["out"] = guarded(lambda: ea.negate())
+    elif fn == "mul":
+        ev["out"] = guarded(lambda: ea.scalarmult(n))
+    elif fn == "eq":
+        eb = make_elem(G, kb, "dec")
+        ev["out"] = {"eq": 1 if ea == eb else 0, "ne": 1 if ea != eb else 0}
+    return ev
